@@ -1232,7 +1232,12 @@ func c43RunVarCase(l *vk.Local, w *c43Worker, order int64, wi int, nw c43NameWor
 			w.nj["not_judged_special_namespace_prefix_candidate"]++
 			continue
 		}
+		// the menu shows the name of the variable inside the namespace, either
+		// as it is or quoted as it would be written after "$"
 		name, ok := c43Unquote(shown)
+		if _, mine := tags[ns+shown]; mine && (shown[0] != '\'' && shown[0] != '"' || !ok) {
+			name, ok = shown, true
+		}
 		if !ok {
 			w.nj["not_judged_variable_candidate_text_not_understood"]++
 			continue
